@@ -168,10 +168,12 @@ def big_nodes(res, scratch):
 def prefix_contigs(res, scratch):
     """two reference contigs, the name of one being a proper prefix of the other's (chr1 / chr10), with nodes at the same
     coordinates; every region on either, every pair of regions on a six-region subset"""
-    for second in ("chr10", "chr1_KI270706v1_random"):
+    for second in ("chr10", "chr1_KI270706v1_random", "HG002#1#chr1"):
         L = gen.Layout((2, 1), "one", 1, second_ref=(1, 2), second_name=second)
         g = L.graph([("s1", "+", "s2", "+", "0M"), ("s4", "+", "s5", "+", "0M")])
-        urecs = [gen.walk_record(i, [(">", n)], 0, g.segs[n].LN, g.segs[n].LN) for i, n in enumerate(g.segs) if n != "s2"]  # s2 (chr1) stays unaligned
+        # s2 (chr1) stays unaligned; with the PanSN name no node of chr1 has an alignment at all
+        skip = {"s2"} if "#" not in second else {n for n, sg in g.segs.items() if sg.SN == "chr1"}
+        urecs = [gen.walk_record(i, [(">", n)], 0, g.segs[n].LN, g.segs[n].LN) for i, n in enumerate(g.segs) if n not in skip]
         for stable in (False, True):
             recs = [rgfa.to_stable_model(g, r) for r in urecs] if stable else urecs
             P = c04.Prepared(scratch, g, L, "realistic", stable, "one-record-per-node", recs, "plain", "prefix")
